@@ -718,6 +718,24 @@ impl<F: Read + Write + Seek> Package<F> {
                 );
             }
         }
+        // A database written by another tool may still describe, in _Columns
+        // or _Validation, a table that it does not list in _Tables; the new
+        // rows would then collide with those after the first insert.
+        for catalog_name in [COLUMNS_TABLE_NAME, VALIDATION_TABLE_NAME] {
+            if !self.tables.contains_key(catalog_name) {
+                continue;
+            }
+            let query = Select::table(catalog_name).with(
+                Expr::col("Table").eq(Expr::string(table_name.as_str())),
+            );
+            if self.select_rows(query)?.len() > 0 {
+                already_exists!(
+                    "Table {:?} is already described in the {:?} table",
+                    table_name,
+                    catalog_name
+                );
+            }
+        }
         {
             // The catalog rows go into up to three tables; make sure that the
             // string pool has room for the strings of all of them together.
